@@ -9,6 +9,11 @@ COMMON_NOTE = ("Trusted: Coq 8.16.1 kernel (+ vm_compute), extraction with ExtrO
                "(coq/Generated regenerated each run) and/or by the sampled correspondence check. See DESIGN.md 8.")
 
 CLAIMS = {
+ "C02": dict(
+    text="Coq theorems about an executable model of offsetForStartAndEnd / ApplyContentChanges / the didOpen-didChange-didSave-didClose cache machine: "
+         "for all valid-UTF-8 documents and all conformant multi-document histories the server cache equals the client's text (C02_sync_history_fixed: the full statement, unguarded, for the repaired code now in /repo; "
+         "the pre-fix code is kept in the model under fx=false with its exact guard and refutation witnesses); model tied to the code by differential correspondence through the real handlers on every run.",
+    design="5/C02", technique="Coq proof (induction over code points and over notification histories; byte sweeps by vm_compute) + extracted-model correspondence through the real LSP handlers"),
  "C13": dict(
     text="Coq theorems about an executable model of the UTF-8 detector / converter (for all texts: identity on valid UTF-8 without 2-byte characters, exact characterisation of the detector, structural soundness; refutation witness for 2-byte characters = known finding) "
          "and of comment attachment; model tied to the code by differential correspondence (implementation vs. model extracted to OCaml) on every run.",
